@@ -53,6 +53,8 @@ def gen_case(seed):
         cancel_at = rnd.choice([0.25, 0.75, 1.25, 2.25])
     elif mode == "timeout":
         spec["timeout"] = rnd.choice([0.75, 1.25, 2.25])
+    if rnd.random() < 0.3:
+        spec["store_latency"] = 0.05  # a store whose calls suspend: restart logic interleaves with the resumed run's own writes
     return {"seed": seed, "family": "det", "mode": mode, "spec": spec, "cancel_at": cancel_at}
 
 
@@ -63,7 +65,7 @@ def run_crash(spec, db, crash_at, cancel_at=None):
     out = {}
 
     async def p1():
-        store = sr.fault_store("sqlite", db, crash_at=crash_at, log=[])
+        store = sr.fault_store("sqlite", db, crash_at=crash_at, log=[], latency=spec.get("store_latency"))
         proc = await sr.Proc(spec, store).start()
         await proc.start_run("h1", case.tr.rec)
         if cancel_at is not None:
@@ -88,7 +90,7 @@ def run_crash(spec, db, crash_at, cancel_at=None):
         out["db_at_crash"], out["ticks_at_crash"] = sr.read_db(db)
 
         async def p2():
-            store = sr.fault_store("sqlite", db, log=[])
+            store = sr.fault_store("sqlite", db, log=[], latency=spec.get("store_latency"))
             proc = await sr.Proc(spec, store).start()
             await asyncio.sleep(300)
             out["h"] = sr.handler_view(await proc.handler("h1"))
